@@ -88,3 +88,16 @@ Theorem C01_core_total_edit_keys :
                               (List.map RimeV.Eng.Spec.op_of_ekey keys))) = true.
 Proof. exact RimeV.Eng.TotalProofs.core_total_edit. Qed.
 Print Assumptions C01_core_total_edit_keys.
+
+(** … and with candidates that end at or after the start of their segment, for
+    EVERY history the only undefined operation the modelled core can still reach
+    is std::string::substr with pos > size: no null dereference, no invalid page
+    range, and CalculateSegmentation finishes within its |input| + 1 rounds in
+    every reachable state (PARTIAL: three of the four kinds; see
+    TotalProofs.core_total_full for the full statement and what is missing) *)
+Theorem C01_core_total_except_substr :
+  forall cfg translate, RimeV.Eng.TotalProofs.total_hyps cfg translate ->
+  (forall i s c, List.In c (translate i s) -> RimeV.Eng.Cand.si_start s <= RimeV.Eng.Cand.c_end c) ->
+  forall ops, List.Forall RimeV.Eng.WfProofs.obs_only_substr (snd (RimeV.Eng.Api.run cfg translate ops)).
+Proof. exact RimeV.Eng.TotalProofs.core_total_except_substr. Qed.
+Print Assumptions C01_core_total_except_substr.
